@@ -122,7 +122,10 @@ def sendPresence(self: Obj("YowPresenceProtocolLayer"), entity: Opaque("entity")
 #      expected), anything else is not this layer's business ------------------------------------------------------------------
 def iq_request_sent(self, entity):
     """handed to _sendIq (C08: registered under its id with both continuations, then its serialisation sent down once)"""
-    return n_events("toLower") == 1 and n_events("toUpper") == 0
+    return n_events("toLower") == 1 and n_events("toUpper") == 0 \
+        and n_events("entity.toProtocolTreeNode") == 1 and same_obj(event_arg("entity.toProtocolTreeNode", 0, 0), entity) \
+        and same_obj(event_arg("toLower", 0), event_result("entity.toProtocolTreeNode", 0)) \
+        and contains_key(self.iqRegistry, getter("entity.getId", entity))
 
 
 def iq_not_mine(self):
